@@ -22,6 +22,15 @@ CHECKS = {
             "reachability predicates, decomposition over graphs, purity and store immutability. Bounded by case count and graph size (<=8 nodes).",
             "Trusted: harness/models/t1.py (documented rule); exact differential only when perf caps are off.",
             "DESIGN.md §3 C12"),
+    "C11": ("exploration",
+            "Hypothesis property test: envelope predicates + exact differential against a float64 reference retrieval on well-separated cases + metamorphic rerank-off relation",
+            "Generated memories (owners, timestamps around the recency window, clusters, importance, bag-of-words/explicit/zero/missing "
+            "vectors), queries, validated t2 configs (k, threshold, tiers, ranking weights, owner scope, hybrid/quality/MMR) and GEL "
+            "edges; checks k/distinct/owner scope/threshold/tier pools/score agreement/documented order on every case, exact ids+order "
+            "against an independent float64 reference when no score lies in the 1e-6 float32 band, rerank layers as pure permutations "
+            "(same case with layers off) and residual nudges (existing node, label in a used hit, caps).",
+            "Trusted: harness/models/t2.py; float32-vs-float64 band 1e-6; in-memory backend only (lancedb is not installed).",
+            "DESIGN.md §3 C11"),
 }
 
 NOT_APPLICABLE = {
